@@ -66,8 +66,13 @@ func uPool() []Cmd {
 		/*28*/ {Command: "sudo docker ps", Description: "List files of containers as root", Keywords: []string{"docker", "list"}, Platform: []string{"windows"}},
 		/*29*/ {Command: "gitk --all", Description: "Browse git files history", Keywords: []string{"git", "history"}, Platform: []string{"windows"}},
 		/*30*/ {Command: "nohup find / -name core", Description: "Find core files in the background", Keywords: []string{"find", "files"}, Platform: []string{"macos"}},
+		// extras beyond the core pool (uPoolCore): used by index by the checks that need them
+		/*31*/ {Command: "./serve files > out.log 2>&1 &", Description: "Serve files in the background, output to a log", Keywords: []string{"files", "list"}},
 	}
 }
+
+// uPoolCore: the entries that the subset enumerations (C01, C03) and the 40-entry database draw from.
+const uPoolCore = 31
 
 // uBuildDB writes cmds as YAML and loads them with the real loader, so the
 // database is exactly what the tool builds (lower-cased copies, inverted
@@ -176,7 +181,7 @@ func uForty() []Cmd {
 	pool := uPool()
 	out := append([]Cmd{}, pool...)
 	for i := 0; len(out) < 40; i++ {
-		e := pool[(i*7+4)%len(pool)]
+		e := pool[(i*7+4)%uPoolCore]
 		e.Command = fmt.Sprintf("%s --v%d", e.Command, i)
 		e.Description = e.Description + " compress files git"
 		out = append(out, e)
